@@ -128,10 +128,10 @@ func check(c Case) (res result, err error) {
 			if jslex.Keywords[t.Text] && !t.AfterDot || !plainIdent.MatchString(t.Text) {
 				continue
 			}
-			if keep && !inIdents[t.Text] && !inStrings[t.Text] {
+			if keep && !inIdents[t.Text] && !inStrings[t.Text] && !strings.Contains(c.Src, t.Text) {
 				return res, fmt.Errorf("KeepVarNames: identifier %q appears in the output but not in the input\n--- input:\n%s\n--- output:\n%s", t.Text, clip(c.Src), clip(text))
 			}
-			if t.AfterDot && !inIdents[t.Text] && !inStrings[t.Text] {
+			if t.AfterDot && !inIdents[t.Text] && !inStrings[t.Text] && !strings.Contains(c.Src, t.Text) {
 				return res, fmt.Errorf("%s: property name %q after '.' does not occur in the input\n--- input:\n%s\n--- output:\n%s", label, t.Text, clip(c.Src), clip(text))
 			}
 			if !keep && !inIdents[t.Text] {
